@@ -44,6 +44,9 @@ func (c SyncCase) String() string {
 	if c.MetaOn {
 		s += fmt.Sprintf(" metadata-only select=%q", c.MetaSel)
 	}
+	if c.Notify || c.FilterShift || c.FilterUID {
+		s += fmt.Sprintf(" notify=%v filter-shift=%v filter-uid=%v", c.Notify, c.FilterShift, c.FilterUID)
+	}
 	return s
 }
 
